@@ -3,7 +3,7 @@ package fee
 // C31 / C11 — fee kernel: RequiredFee = ceil(hours/burn), the remainder never
 // underflows, VerifyTransactionFeeForHours accepts exactly when it should.
 
-//vp:prop C31
+//vp:prop C31 C11
 //vp:bounds none: loop-free; hours free 64-bit, burn factor free non-zero 32-bit
 //vp:assume burn factor != 0 (params.VerifyTxn.Validate enforces >= 2; a zero divisor panics by design)
 func vpH_C31_RequiredFee() {
@@ -25,7 +25,7 @@ func vpH_C31_RequiredFee() {
 	vpAssert(rhi == 0 && rlo == h, "remaining_plus_fee_is_hours")
 }
 
-//vp:prop C31
+//vp:prop C31 C11
 //vp:bounds none: loop-free; hours, fee free 64-bit, burn factor free non-zero 32-bit
 //vp:assume burn factor != 0
 func vpH_C31_VerifyFeeForHours() {
